@@ -25,8 +25,11 @@ var migrations = [dbVersion]MigrationStep{
 		it := txn.NewIterator(badger.DefaultIteratorOptions)
 		defer it.Close()
 		for it.Seek(prefix); it.ValidForPrefix(prefix); it.Next() {
-			key := it.Item().Key()
-			txn.Delete(key)
+			// The iterator reuses the key's memory, so the pending delete needs its own copy.
+			key := it.Item().KeyCopy(nil)
+			if err := txn.Delete(key); err != nil {
+				return err
+			}
 		}
 
 		return setVersion(txn, 2)
